@@ -221,10 +221,15 @@ class LFRSpec(Spec):
         return LinearFourRates(time_decay_factor=p["eta"], warning_level=p["warn"], detect_level=p["detect"], burn_in=p["burn_in"],
                                num_mc=p["num_mc"], subsample=p["subsample"], rates_tracked=list(p["tracked"]), round_val=p["round_val"])
     def gen(self, ctx):
-        return {"params": {"eta": ctx.rng.choice([0.9, 0.75]), "warn": ctx.rng.choice([0.3, 0.2]), "detect": ctx.rng.choice([0.1, 0.05]),
-                           "burn_in": ctx.rng.choice([0, 5, 20]), "num_mc": 15, "subsample": ctx.rng.choice([1, 2, 3]),
-                           "tracked": ["tpr", "tnr", "ppv", "npv"], "round_val": 2},
-                "data": pair_stream(ctx.rng, ctx.rng.randint(60, 150))}
+        # (decay, burn-in) regimes in which the decision really depends on the rates: with a slow decay and a short burn-in
+        # the initial statistic 0.5 lies outside every simulated band and each epoch ends at burn_in + 1, whatever the labels;
+        # two of those degenerate regimes are kept for the lifecycle properties
+        eta, burn = ctx.rng.choice([(0.5, 10), (0.5, 20), (0.75, 20), (0.75, 10), (0.9, 40), (0.5, 10), (0.9, 5), (0.75, 0)])
+        return {"params": {"eta": eta, "warn": ctx.rng.choice([0.3, 0.2]), "detect": ctx.rng.choice([0.05, 0.01]),
+                           "burn_in": burn, "num_mc": 30, "subsample": ctx.rng.choice([1, 1, 2, 3]),
+                           "tracked": ["tpr", "tnr", "ppv", "npv"] if ctx.rng.random() < 0.7 else ctx.rng.sample(["tpr", "tnr", "ppv", "npv"], 2),
+                           "round_val": ctx.rng.choice([2, 4])},
+                "data": pair_stream(ctx.rng, ctx.rng.randint(90, 180))}
     def warmup_ok(self, case, rows, i):
         p = case["params"]
         return rows[i]["since"] > p["burn_in"] and rows[i]["since"] % p["subsample"] == 0
